@@ -3,6 +3,7 @@
   One case per input line, one reply line per case. CORE LEAN ONLY.
 -/
 import Algobra.Model.Hist
+import Algobra.Model.Extra
 import Algobra.Model.Names
 open Algobra
 
@@ -190,154 +191,62 @@ def runHist {α : Type} (desc : FieldDesc) (F : FOps α) (uSpec bSpec : String) 
       fld := fun i => if i == 0 then F else more.getD (i - 1) F,
       uring := fun i => if i == 1 then { uBase with modulus := um } else if i == 3 then { uBase with modulus := um2 } else uBase,
       bring := fun i => if i == 1 then { bBase with ideal := bi } else bBase }
-    -- `escr@f` (harness: call Elements(), then scribble over everything returned) is a pure accessor: no state
-    -- change, the reply is the number of elements.  It is interpreted here, not by the proved `step`.
-    -- `eN=any…@f arg`: the generic constructor `Field.Element(interface{})`. It only dispatches on the dynamic
-    -- type of its argument, so it is rewritten here into the constructor it dispatches to (uint → `u`, int → `s`,
-    -- string → `str`; []uint / []int: extension fields only, the value is Σ cᵢ·aⁱ computed with the field's own
-    -- operations; every other type, and slices for prime and binary fields: an Input error, no object).
-    -- `quotient@1 iN` (a quotient of a quotient ring: refused first, InputValue), `quotient@2 iN` (a ring the ideal
-    -- does not belong to: the Gröbner basis is computed first, then InputIncompatible);
-    -- `uquot@k j:<gens>` (univariate: ring k modulo an ideal made in ring j; rings 1 and 3 are quotient rings)
+    -- The operations below are not an `Op` of `step`; their semantics are the named functions of
+    -- Model/Extra.lean (theorems: Props/C17Extra.lean). Here only the line is taken apart.
+    -- `escr@f`; `quotient@1 iN`; `quotient@2 iN`; `uquot@k j:<gens>`; `eN=any…@f arg`
     let stepD := fun (st : St α) (line : String) =>
-      if line.startsWith "escr@" then (st, "ok " ++ toString (env.fld (atIdx line)).card)
-      else if line.startsWith "quotient@1 " then (st, if bi.isSome then "err InputValue" else "bad-op")
+      if line.startsWith "escr@" then escrOp env st (atIdx line)
+      else if line.startsWith "quotient@1 " then quotient1Op env st (regNum ((line.splitOn " ").getD 1 ""))
       else if line.startsWith "quotient@2 " then
-        let r := (step env desc st (parseOp ("quotient " ++ ((line.splitOn " ").getD 1 "")))).2
-        (st, if r == "ok" then "err InputIncompatible" else r)
+        match parseOp ("quotient " ++ ((line.splitOn " ").getD 1 "")) with
+        | .iXform "quotient" n => quotient2Op env desc st n
+        | _ => (st, "bad-op")
       else if line.startsWith "uquot@" then
         let k := atIdx ((line.splitOn " ").getD 0 "")
         let arg := (line.splitOn " ").getD 1 ""
         let j := ((arg.splitOn ":").getD 0 "0").toNat!
-        let exists_ := fun (i : Nat) => i == 0 || i == 2 || (i == 1 && um.isSome) || (i == 3 && um2.isSome)
-        if !(exists_ k && exists_ j) then (st, "bad-op")
+        if !(uRingExists env k && uRingExists env j) then (st, "bad-op")
         else
           match (((arg.splitOn ":").getD 1 "").splitOn ";").mapM (decU env0) with
           | none => (st, "bad-op")
-          | some gens =>
-            match UPoly.newIdeal F gens with
-            | none => (st, "err-ideal InputValue")
-            | some g =>
-              if UPoly.isZero F g then (st, "err-ideal InputValue")
-              else if k == 1 || k == 3 then (st, "err InputValue")
-              else if (k == 2) != (j == 2) then (st, "err InputIncompatible")
-              else (st, "ok")
+          | some gens => uquotOp env st k j gens
       else
         let toks := (line.trimAscii.toString.splitOn " ").filter (· != "")
         match (toks.headD "").splitOn "=" with
         | [dstS, opAt] =>
           let op := (opAt.splitOn "@").getD 0 ""
-          if op.startsWith "any" then
-            let idx := atIdx opAt
-            let Fi := env.fld idx
-            let dst := regNum dstS
-            let a0 := toks.getD 1 ""
-            let isExt := match desc with | .ext .. => true | _ => false
-            let horner (cs : List α) : α := cs.foldr (fun c acc => Fi.add (Fi.mul acc Fi.gen) c) Fi.zero
-            let items := if a0 == "-" || a0 == "" then [] else a0.splitOn "."
-            if op == "anyu" then step env desc st (.eCtor dst idx "u" a0)
-            else if op == "anyi" then step env desc st (.eCtor dst idx "s" a0)
-            else if op == "anystr" then step env desc st (.eCtor dst idx "str" a0)
-            else if op == "anysl" && isExt then
-              step env desc st (.eCtor dst idx "enc" (Fi.enc (horner (items.map fun t => Fi.ofNat t.toNat!))))
-            else if op == "anyisl" && isExt then
-              step env desc st (.eCtor dst idx "enc" (Fi.enc (horner (items.map fun t => Fi.ofInt (parseInt t)))))
-            else (st, "err Input")
+          if op.startsWith "any" then anyOp env desc st (regNum dstS) (atIdx opAt) op (toks.getD 1 "")
           else step env desc st (parseOp line)
         | _ => step env desc st (parseOp line)
-    -- `tcheck@f` (harness: every element of the field, with its table, against a twin field object without table:
-    -- x·g, x⁻¹, x·1): the model's reply is "no mismatch".
+    -- `tcheck@f`; `uireduce j:<gens> pK`; `ireduce iN qK`; `qK=spoly qA qB`;
     -- `quotient iN` followed by `qK=embed@3 qJ:r`: the ring made by the last successful `quotient` operation is used
-    -- (embedding with or without reduction); the driver remembers the generators `Quotient` stores for it.
+    -- (embedding with or without reduction); the generators `Quotient` stores for it travel with the store.
     let stepQ := fun (stq : St α × Option (List (BPoly α))) (line : String) =>
       let (st, lastQ) := stq
       let toks := (line.trimAscii.toString.splitOn " ").filter (· != "")
-      if line.startsWith "tcheck@" then ((st, lastQ), "ok 0 of " ++ toString (env.fld (atIdx line)).card)
+      let keep := fun (r : St α × String) => ((r.1, lastQ), r.2)
+      if line.startsWith "tcheck@" then keep (tcheckOp env st (atIdx line))
       else if line.startsWith "uireduce " then
-        -- `uireduce j:<gens> pK`: an ideal is made in univariate ring j and its public `Reduce` is applied to pK:
-        -- the polynomial's own error first, then the ring test (ArithmeticIncompat), then the unit ideal (zero),
-        -- then the remainder modulo the monic generator
         let arg := toks.getD 1 ""
         let j := ((arg.splitOn ":").getD 0 "0").toNat!
         let k := regNum (toks.getD 2 "")
-        let rp := uGet env st k
         match (((arg.splitOn ":").getD 1 "").splitOn ";").mapM (decU env0) with
         | none => ((st, lastQ), "bad-op")
-        | some gens =>
-          match UPoly.newIdeal F gens with
-          | none => ((st, lastQ), "err-ideal InputValue")
-          | some g =>
-            if UPoly.isZero F g then ((st, lastQ), "err-ideal InputValue")
-            else if rp.err.isErr then ((st, lastQ), "err " ++ toString rp.err)
-            else if rp.home != j then ((st, lastQ), "err ArithmeticIncompat")
-            else
-              match UPoly.reduce F g rp.val with
-              | none => ((st, lastQ), "fuel-exhausted")
-              | some v =>
-                let r : UReg α := { rp with val := v }
-                (({ st with us := St.setL st.us k r }, lastQ), "ok " ++ showU env r)
+        | some gens => keep (uireduceOp env st j gens k)
       else if line.startsWith "ireduce " then
-        -- `ireduce iN qK`: `id.Reduce(f)` — `IsGroebner()` is asked first (and cached in the ideal object); when the
-        -- answer is no, a Groebner basis is computed on the side; f becomes its remainder modulo the basis
-        let n := regNum (toks.getD 1 ""); let k := regNum (toks.getD 2 "")
-        let id := iGet st n; let rf := bGet st k
-        let o := bord env 0
-        match id.isGroebnerQ F o with
-        | none => ((st, lastQ), "fuel-exhausted")
-        | some (id1, isG) =>
-          let st1 := { st with ids := St.setL st.ids n id1 }
-          match (if isG then some id1 else id1.groebnerBasis F o) with
-          | none => ((st1, lastQ), "fuel-exhausted")
-          | some gb =>
-            if rf.err.isErr then ((st1, lastQ), "err " ++ toString rf.err)
-            else if rf.home != 0 then ((st1, lastQ), "err ArithmeticIncompat")
-            else match BPoly.rem F o BPoly.divFuel rf.val gb.gens with
-              | .error e => ((st1, lastQ), "err " ++ toString e)
-              | .ok none => ((st1, lastQ), "fuel-exhausted")
-              | .ok (some v) =>
-                let r : BReg α := { rf with val := v }
-                (({ st1 with bs := St.setL st1.bs k r }, lastQ), "ok " ++ showB env r)
+        keep (ireduceOp env st (regNum (toks.getD 1 "")) (regNum (toks.getD 2 "")))
       else if (toks.headD "").endsWith "=spoly" then
-        -- `qK=spoly qA qB`: the exported `bivariate.SPolynomial` (operand errors and rings as every binary operation;
-        -- a zero operand is refused with InputValue since "fix: bivariate.SPolynomial refuses the zero polynomial")
-        let ra := bGet st (regNum (toks.getD 1 "")); let rb := bGet st (regNum (toks.getD 2 ""))
-        let dst := regNum (((toks.headD "").splitOn "=").getD 0 "")
-        match bCheck ra [rb] with
-        | some (r, _) => ((st, lastQ), "err " ++ toString r.err)
-        | none =>
-          if ra.val.isEmpty || rb.val.isEmpty then ((st, lastQ), "err InputValue")
-          else
-            let Rr := bring env ra.home
-            match BPoly.sPoly F (bord env ra.home) ra.val rb.val with
-            | none => ((st, lastQ), "fuel-exhausted")
-            | some sp =>
-              -- both products are made with `Mult`, which reduces in a quotient ring; so does `Minus`
-              match BPoly.reduceIn Rr sp with
-              | none => ((st, lastQ), "fuel-exhausted")
-              | some v =>
-                let r : BReg α := { home := ra.home, val := v }
-                (({ st with bs := St.setL st.bs dst r }, lastQ), "ok " ++ showB env r)
+        keep (spolyOp env st (regNum (((toks.headD "").splitOn "=").getD 0 "")) (regNum (toks.getD 1 "")) (regNum (toks.getD 2 "")))
       else if line.startsWith "quotient " then
-        let (st', r) := stepD st line
-        let lq := if r == "ok" then BPoly.quotientGens F ord (iGet st (regNum (toks.getD 1 ""))) else lastQ
-        ((st', lq), r)
+        match parseOp line with
+        | .iXform "quotient" n => quotientOp env desc (st, lastQ) n
+        | op => keep (step env desc st op)
       else if (toks.headD "").contains '=' && (((toks.headD "").splitOn "=").getD 1 "") == "embed@3" then
         match lastQ, (toks.getD 1 "").splitOn ":" with
         | some gs, [srcS, redS] =>
-          let ra := bGet st (regNum srcS)
-          let dst := regNum (((toks.headD "").splitOn "=").getD 0 "")
-          if ra.home == 2 then ((st, lastQ), "err InputIncompatible")
-          else
-            let R3 : BPoly.Ring α := { bBase with ideal := some gs }
-            match (if redS == "1" then BPoly.reduceIn R3 ra.val else some ra.val) with
-            | none => ((st, lastQ), "fuel-exhausted")
-            | some v =>
-              let r : BReg α := { home := 3, val := v, err := ra.err }
-              (({ st with bs := St.setL st.bs dst r }, lastQ), "ok " ++ showB env r)
+          keep (embedQOp env st gs (regNum (((toks.headD "").splitOn "=").getD 0 "")) (regNum srcS) (redS == "1"))
         | _, _ => ((st, lastQ), "bad-op")
-      else
-        let (st', r) := stepD st line
-        ((st', lastQ), r)
+      else keep (stepD st line)
     let (_, outs) := ops.foldl (fun (stq, outs) line =>
       let (stq', r) := stepQ stq line
       (stq', outs ++ [if snap then r ++ " ## " ++ snapshot env stq'.1 else r])) ((({} : St α), none), [])
